@@ -218,16 +218,16 @@ theorem powWordBase_spec (W base exp : Nat) (hb : base < 2 ^ W) (hexp : exp ≠ 
 
 -- ------------------------------------------------------------------ pow_large_base / TypedReprRef::pow
 
-theorem powLargeBase_spec (W : Nat) (hW : 1 ≤ W) (base : List Nat) (exp : Nat)
+theorem powLargeBase_spec (W : Nat) (hW : 3 ≤ W) (base : List Nat) (exp : Nat)
     (hb : (TRepr.large base).Canon W) (hexp : 2 ≤ exp) :
     (powLargeBase W base exp).value W = val W base ^ exp ∧ (powLargeBase W base exp).Canon W := by
-  have hsq := TRepr.sqr_spec W hW (.large base) hb
+  have hsq := TRepr.sqr_spec W (by omega) (.large base) hb
   exact powLoop_start (TRepr.value W) (TRepr.Canon W) (fun r => r.mul W (.large base))
     (fun r => r.sqr W) (val W base)
     (fun r hr => TRepr.mul_spec W hW r (.large base) hr hb)
-    (fun r hr => TRepr.sqr_spec W hW r hr) exp hexp _ hsq.2 hsq.1
+    (fun r hr => TRepr.sqr_spec W (by omega) r hr) exp hexp _ hsq.2 hsq.1
 
-theorem TRepr.pow_spec (W : Nat) (hW : 1 ≤ W) (a : TRepr) (exp : Nat) (ha : a.Canon W) :
+theorem TRepr.pow_spec (W : Nat) (hW : 3 ≤ W) (a : TRepr) (exp : Nat) (ha : a.Canon W) :
     (a.pow W exp).value W = a.value W ^ exp ∧ (a.pow W exp).Canon W := by
   unfold TRepr.pow
   split
@@ -239,7 +239,7 @@ theorem TRepr.pow_spec (W : Nat) (hW : 1 ≤ W) (a : TRepr) (exp : Nat) (ha : a.
     · rename_i _ h; subst h; exact ⟨by simp, ha⟩
     · split
       · rename_i _ _ h; subst h
-        have hs := TRepr.sqr_spec W hW a ha
+        have hs := TRepr.sqr_spec W (by omega) a ha
         exact ⟨by rw [hs.1, Nat.pow_two], hs.2⟩
       · rename_i h0 h1 h2
         have hexp : 2 ≤ exp := by omega
@@ -249,22 +249,22 @@ theorem TRepr.pow_spec (W : Nat) (hW : 1 ≤ W) (a : TRepr) (exp : Nat) (ha : a.
           split
           · rename_i hd
             rw [powWordBase_spec W d exp hd h0]
-            exact ⟨ofNat_value W hW _, ofNat_canon W hW _⟩
+            exact ⟨ofNat_value W (by omega) _, ofNat_canon W (by omega) _⟩
           · rw [powDwordBase_spec d exp hexp]
-            exact ⟨ofNat_value W hW _, ofNat_canon W hW _⟩
+            exact ⟨ofNat_value W (by omega) _, ofNat_canon W (by omega) _⟩
         | large ws => exact powLargeBase_spec W hW ws exp ha hexp
 
 -- ------------------------------------------------------------------ UBig::pow / IBig::pow
 
-theorem ubigPow_spec (W : Nat) (hW : 1 ≤ W) (a : TRepr) (exp : Nat) (ha : a.Canon W) :
+theorem ubigPow_spec (W : Nat) (hW : 3 ≤ W) (a : TRepr) (exp : Nat) (ha : a.Canon W) :
     (ubigPow W a exp).value W = a.value W ^ exp ∧ (ubigPow W a exp).Canon W := by
   unfold ubigPow
   simp only
   split
-  · refine ⟨?_, ofNat_canon W hW _⟩
+  · refine ⟨?_, ofNat_canon W (by omega) _⟩
     have hodd := TRepr.pow_spec W hW (ofNat W (a.value W / 2 ^ trailingZeros (a.value W))) exp
-      (ofNat_canon W hW _)
-    rw [ofNat_value W hW, hodd.1, ofNat_value W hW]
+      (ofNat_canon W (by omega) _)
+    rw [ofNat_value W (by omega), hodd.1, ofNat_value W (by omega)]
     have hs := trailingZeros_spec (a.value W)
     generalize trailingZeros (a.value W) = s at *
     generalize a.value W = n at *
@@ -282,7 +282,7 @@ theorem neg_pow_int (m : Int) (exp : Nat) :
     have : exp = 2 * (exp / 2) := by omega
     rw [this, pow_mul, pow_mul, neg_sq]
 
-theorem ibigPow_spec (W : Nat) (hW : 1 ≤ W) (a : SRepr) (exp : Nat) (ha : a.WF W) :
+theorem ibigPow_spec (W : Nat) (hW : 3 ≤ W) (a : SRepr) (exp : Nat) (ha : a.WF W) :
     (ibigPow W a exp).value W = a.value W ^ exp ∧ (ibigPow W a exp).WF W := by
   obtain ⟨an, am⟩ := a
   have hu := ubigPow_spec W hW am exp ha.1
@@ -297,7 +297,7 @@ theorem ibigPow_spec (W : Nat) (hW : 1 ≤ W) (a : SRepr) (exp : Nat) (ha : a.WF
     by_cases h : exp % 2 = 1 <;> simp [h]
 
 /-- the sign of `IBig::pow`: negative iff the base is negative and the exponent is odd -/
-theorem ibigPow_neg_iff (W : Nat) (hW : 1 ≤ W) (a : SRepr) (exp : Nat) (ha : a.WF W) :
+theorem ibigPow_neg_iff (W : Nat) (hW : 3 ≤ W) (a : SRepr) (exp : Nat) (ha : a.WF W) :
     (ibigPow W a exp).value W < 0 ↔ (a.value W < 0 ∧ exp % 2 = 1) := by
   obtain ⟨an, am⟩ := a
   have hu := ubigPow_spec W hW am exp ha.1
